@@ -210,7 +210,7 @@ def q_setting(c, kind, name, part=None):
     raise ValueError(kind)
 
 
-def q_items(tier, kinds1, kinds2, quick_points=3):
+def q_items(tier, kinds1, kinds2, quick_points=3, reuse=True):
     import itertools
     out = []
     if tier == 'quick':
@@ -218,7 +218,7 @@ def q_items(tier, kinds1, kinds2, quick_points=3):
                if len(sh) <= quick_points and (shapes.shape_nobj(sh) <= 1 or len(sh) <= 2 or
                                                sh in ([([0], []), ([1], []), ([], [0, 1])], [([0], []), ([1], [0]), ([], [1])]))]
     else:
-        shp = shapes.table_shapes(3, 2, 2, 2)
+        shp = shapes.table_shapes(3, 2, 2, 2, reuse=reuse)
     for sh in shp:
         n = shapes.shape_nobj(sh)
         if n == 0:
@@ -251,7 +251,7 @@ def q2_items(tier):
             for part in range(len(Q_RANGES)):
                 its.append([sh, ['code', 'cmulti'], [part, None]])
         return its
-    return q_items(tier, ('code', 'c256', 'rgb', 'multi', 'cmulti', 'invalid'), Q_PAIRS_S)
+    return q_items(tier, ('code', 'c256', 'rgb', 'multi', 'cmulti', 'invalid'), Q_PAIRS_S, reuse=False)
 
 
 def q3_items(tier):
@@ -261,7 +261,7 @@ def q3_items(tier):
         chain = [([0], []), ([1], [0]), ([], [1])]
         its += [[chain, ['multiq', 'code'], [a, b]] for a in range(len(Q_RANGES)) for b in range(len(Q_RANGES))]
     else:
-        its = q_items(tier, ('code', 'c256', 'rgb', 'multi'), Q_PAIRS + [['multi', 'code']])
+        its = q_items(tier, ('code', 'c256', 'rgb', 'multi'), Q_PAIRS + [['multiq', 'code']], reuse=False)
     return [it + [w] for it in its for w in ('twice', 'fixed')]
 
 
